@@ -81,43 +81,71 @@ theorem defaults_documented :
 
 /-! ### numprocs law and per-process expansion -/
 
-theorem mkProc_expands (cx : Ctx) (kind : PKind) (sec : Section) (pre : Pre) (E E' : Exps) (num : Int) (p : PConfig)
-    (h : mkProc cx kind sec pre E num = .ok (p, E')) :
-    ∃ envStr env nameX out err,
-      expand (procExps1 cx pre E num) pre.environment_str = .ok envStr ∧
+theorem mkProc_expands (cx : Ctx) (kind : PKind) (sec : Section) (pre : Pre) (s s' : XS) (num : Int) (p : PConfig)
+    (h : mkProc cx kind sec pre s num = .ok (p, s')) :
+    ∃ envStr env nameX d out err c,
+      expand (loopHead cx pre s num).cur pre.environment_str = .ok envStr ∧
       dictOfKeyValuePairs envStr = .ok env ∧
-      E' = envExps (procExps1 cx pre E num) env ∧
       p.environment = env ∧
-      expand E' pre.process_name = .ok nameX ∧ processOrGroupName nameX = .ok p.name ∧
-      (getField cx.penv "program" sec "command" [] E' >>= asOptStr) = .ok (some p.command) ∧
-      logSet cx sec E' "stdout" = .ok out ∧ p.stdout_logfile = out.logfile ∧
-      logSet cx sec E' "stderr" = .ok err ∧ p.stderr_logfile = (if pre.redirect_stderr then LogFile.none else err.logfile) ∧
-      p.kind = kind := by
-  simp only [mkProc, bind, Except.bind, pure, Except.pure] at h
-  repeat (split at h <;> try contradiction)
-  all_goals
-    rename_i _ envStr h1 _ env h2 _ dir h3 _ out h4 _ err h5 _ _ cmd h6 _ nameX h7 _ name h8 hr
-    injection h with h
-    injection h with hp hE
-    subst hp; subst hE
-    refine ⟨envStr, env, nameX, out, err, h1, h2, rfl, rfl, h7, h8, ?_, h4, rfl, h5, by simp [hr], rfl⟩
-    simpa [bind, Except.bind] using h6
+      -- the program's own environment is written back as ENV_ expansions before anything else is looked up
+      loopGet cx sec "directory" ((loopHead cx pre s num).mut fun e => envExps e env) = .ok d ∧
+      logSet cx sec d.2 "stdout" = .ok out ∧ p.stdout_logfile = out.1.logfile ∧
+      logSet cx sec out.2 "stderr" = .ok err ∧ p.stderr_logfile = (if pre.redirect_stderr then LogFile.none else err.1.logfile) ∧
+      loopGet cx sec "command" err.2 = .ok c ∧ asOptStr c.1 = .ok (some p.command) ∧
+      expand c.2.cur pre.process_name = .ok nameX ∧ processOrGroupName nameX = .ok p.name ∧
+      s' = c.2 ∧ p.kind = kind := by
+  simp only [mkProc, procBody, bind_ok] at h
+  obtain ⟨envStr, h1, env, h2, d, h3, dir, _, out, h4, err, h5, c, h6, co, h7, cmd, h8, nameX, h9, name, h10, h⟩ := h
+  simp only [pure, Except.pure] at h
+  injection h with h
+  injection h with hp hs
+  subst hp
+  have hwb : pfsWriteBack = true := by decide
+  simp only [hwb, if_true] at h3
+  cases co with
+  | none => simp [orError] at h8
+  | some x =>
+    simp only [orError] at h8
+    injection h8 with h8
+    subst h8
+    exact ⟨envStr, env, nameX, d, out, err, c, h1, h2, rfl, h3, h4, rfl, h5, rfl, h6, h7, h9, h10, hs.symm, rfl⟩
 
-/-- inside round `num` of the loop, `%(process_num)…` and `%(numprocs)…` denote `num` and numprocs
-    (provided the ENV_ expansions do not themselves define these two names) -/
-theorem loop_expansions_bind (cx : Ctx) (pre : Pre) (E : Exps) (num : Int) (env : KV)
-    (hp : ∀ kv ∈ cx.penv, kv.1 ≠ "process_num" ∧ kv.1 ≠ "numprocs") :
-    (envExps (procExps1 cx pre E num) env).lookup "process_num" = some (.i num) ∧
-    (envExps (procExps1 cx pre E num) env).lookup "numprocs" = some (.i pre.numprocs) := by
+/-- inside round `num` of the loop, `%(process_num)…` and `%(numprocs)…` denote `num` and numprocs, both when the
+    environment is expanded and — after the program's environment was written back and however often a lookup
+    re-applied `common_expansions` — for every later expansion (provided neither the ENV_ expansions nor
+    `common_expansions` define these two names; `commonExps_no_loop_names` below) -/
+theorem loop_expansions_bind (cx : Ctx) (pre : Pre) (s : XS) (num : Int) (env : KV)
+    (hp : ∀ kv ∈ cx.penv, kv.1 ≠ "process_num" ∧ kv.1 ≠ "numprocs")
+    (hc : ∀ kv ∈ s.common, kv.1 ≠ "process_num" ∧ kv.1 ≠ "numprocs") :
+    (loopHead cx pre s num).cur.lookup "process_num" = some (.i num) ∧
+    (loopHead cx pre s num).cur.lookup "numprocs" = some (.i pre.numprocs) ∧
+    (envExps (loopHead cx pre s num).cur env).lookup "process_num" = some (.i num) ∧
+    (envExps (loopHead cx pre s num).cur env).lookup "numprocs" = some (.i pre.numprocs) ∧
+    (dupdate (envExps (loopHead cx pre s num).cur env) s.common).lookup "process_num" = some (.i num) ∧
+    (dupdate (envExps (loopHead cx pre s num).cur env) s.common).lookup "numprocs" = some (.i pre.numprocs) := by
   have r1 : cx.penv.reverse.lookup "process_num" = none :=
     lookup_none_of_keys _ _ (fun kv h => (hp kv (List.mem_reverse.mp h)).1)
   have r2 : cx.penv.reverse.lookup "numprocs" = none :=
     lookup_none_of_keys _ _ (fun kv h => (hp kv (List.mem_reverse.mp h)).2)
-  constructor
-  · rw [envExps_lookup _ _ _ (by decide), procExps1, lookup_dupdate, r1, lookup_dset, lookup_dset]
-    simp
-  · rw [envExps_lookup _ _ _ (by decide), procExps1, lookup_dupdate, r2, lookup_dset]
-    simp
+  have c1 : s.common.reverse.lookup "process_num" = none :=
+    lookup_none_of_keys _ _ (fun kv h => (hc kv (List.mem_reverse.mp h)).1)
+  have c2 : s.common.reverse.lookup "numprocs" = none :=
+    lookup_none_of_keys _ _ (fun kv h => (hc kv (List.mem_reverse.mp h)).2)
+  have a1 : (loopHead cx pre s num).cur.lookup "process_num" = some (.i num) := by
+    rw [loopHead_lookup, r1]; simp
+  have a2 : (loopHead cx pre s num).cur.lookup "numprocs" = some (.i pre.numprocs) := by
+    rw [loopHead_lookup, r2]; simp
+  refine ⟨a1, a2, ?_, ?_, ?_, ?_⟩
+  · rw [envExps_lookup _ _ _ (by decide), a1]
+  · rw [envExps_lookup _ _ _ (by decide), a2]
+  · rw [lookup_dupdate, c1, envExps_lookup _ _ _ (by decide), a1]; simp
+  · rw [lookup_dupdate, c2, envExps_lookup _ _ _ (by decide), a2]; simp
+
+theorem commonExps_no_loop_names (cx : Ctx) (pn g : String) :
+    ∀ kv ∈ commonExps cx pn g, kv.1 ≠ "process_num" ∧ kv.1 ≠ "numprocs" := by
+  intro kv h
+  simp only [commonExps, List.mem_cons, List.not_mem_nil, or_false] at h
+  rcases h with h | h | h | h <;> subst h <;> simp
 
 /-- **numprocs_law.**  A section with numprocs = n and numprocs_start = s yields exactly n processes (none when
     n ≤ 0), and the i-th one is built by the loop body for process_num = s + i … -/
@@ -125,7 +153,7 @@ theorem numprocs_law (cx : Ctx) (kind : PKind) (sec : Section) (suffix g : Strin
     (h : processesUnsorted cx kind sec suffix g = .ok ps) :
     ∃ pn pre, processOrGroupName suffix = .ok pn ∧ parsePre cx sec (commonExps cx pn g) = .ok pre ∧
       ps.length = pre.numprocs.toNat ∧
-      ∀ i (hi : i < ps.length), ∃ Ei Ei', mkProc cx kind sec pre Ei (pre.numprocs_start + i) = .ok (ps[i], Ei') := by
+      ∀ i (hi : i < ps.length), ∃ si si', mkProc cx kind sec pre si (pre.numprocs_start + i) = .ok (ps[i], si') := by
   obtain ⟨pn, pre, h1, h2, _, h4⟩ := processesUnsorted_ok cx kind sec suffix g ps h
   obtain ⟨hl, hall⟩ := procLoop_spec cx kind sec pre _ _ ps h4
   rw [procNums_eq] at hl hall
@@ -136,6 +164,52 @@ theorem numprocs_law (cx : Ctx) (kind : PKind) (sec : Section) (suffix g : Strin
   obtain ⟨Ei, Ei', hm⟩ := hall i hi hn
   rw [rangeFrom_get] at hm
   exact ⟨Ei, Ei', hm⟩
+
+/-- **process_independent.**  The configuration of process number s + i does not depend on the processes built
+    before it: it is exactly what the loop body yields when it runs FIRST — straight from the state in front of
+    the loop (`common_expansions` only, `freshXS`) — for process_num = s + i.  So `%(ENV_X)s` in a section's
+    environment= always denotes the inherited X, never the value an earlier process of the section produced.
+    (Rests on the GENERATED placement facts `pfsPreLoop`, `pfsLoopHead`: the dictionary is rebuilt inside the loop.) -/
+theorem process_independent (cx : Ctx) (kind : PKind) (sec : Section) (suffix g : String) (ps : List PConfig)
+    (h : processesUnsorted cx kind sec suffix g = .ok ps) :
+    ∃ pn pre, processOrGroupName suffix = .ok pn ∧ parsePre cx sec (commonExps cx pn g) = .ok pre ∧
+      ∀ i (hi : i < ps.length), ∃ s',
+        mkProc cx kind sec pre (freshXS (commonExps cx pn g)) (pre.numprocs_start + i) = .ok (ps[i], s') := by
+  obtain ⟨pn, pre, h1, h2, _, h4⟩ := processesUnsorted_ok cx kind sec suffix g ps h
+  obtain ⟨hl, _⟩ := procLoop_spec cx kind sec pre _ _ ps h4
+  have hall := procLoop_independent cx kind sec pre _ _ ps h4
+  rw [preLoopXS_eq] at hall
+  rw [procNums_eq] at hl hall
+  rw [rangeFrom_length] at hl
+  refine ⟨pn, pre, h1, h2, ?_⟩
+  intro i hi
+  have hn : i < (rangeFrom pre.numprocs_start pre.numprocs.toNat).length := by rw [rangeFrom_length]; omega
+  obtain ⟨s', hm⟩ := hall i hi hn
+  rw [rangeFrom_get] at hm
+  exact ⟨s', hm⟩
+
+/-- **process_independent_of_earlier.**  Leaving out the first k rounds of the loop leaves every later process
+    as it was: process k's configuration does not depend on processes < k. -/
+theorem process_independent_of_earlier (cx : Ctx) (kind : PKind) (sec : Section) (pre : Pre) (C : Exps) (nums : List Int)
+    (ps : List PConfig) (h : procLoop cx kind sec pre (freshXS C) nums = .ok ps) (k : Nat) :
+    procLoop cx kind sec pre (freshXS C) (nums.drop k) = .ok (ps.drop k) :=
+  procLoop_drop cx kind sec pre (freshXS C) nums ps h k
+
+/-- every option lookup inside the loop is handed the per-process dictionary (GENERATED `pfsLoopGets`), so
+    `%(process_num)…`, `%(numprocs)…` and the ENV_ expansions of the program's own environment reach directory,
+    log file names and command alike -/
+theorem loop_lookups_pass_expansions : pfsLoopGets.all (fun g => g.2) = true := by decide
+
+/-- the ten lookups of the loop body, in order -/
+theorem loop_lookups : pfsLoopGets.map (fun g => g.1) =
+    ["directory", "stdout_logfile", "stdout_logfile_backups", "stdout_logfile_maxbytes", "stdout_syslog",
+     "stderr_logfile", "stderr_logfile_backups", "stderr_logfile_maxbytes", "stderr_syslog", "command"] := by decide
+
+/-- **logfile_expanded_once** (regression of finding F40).  A configured log file name goes through exactly one
+    expansion — the one of the lookup: `reexpand` is the identity (GENERATED `pfsLogfileReexpanded` = false), so
+    `%%` in a log file name denotes one literal percent sign. -/
+theorem logfile_expanded_once (E : Exps) (r : Raw) : reexpand E r = .ok r := by
+  cases r <;> simp [reexpand, pfsLogfileReexpanded]
 
 /-- the sorted result is a permutation of the loop's output, so the count and the set of processes are the same -/
 theorem processesFromSection_perm (cx : Ctx) (kind : PKind) (sec : Section) (suffix g : String) (ps : List PConfig)
@@ -280,10 +354,10 @@ theorem name_chars (name out : String) (h : processOrGroupName name = .ok out) :
     simp only [List.any_eq_true]
     exact ⟨c, hc, by simpa using hin⟩
 
-theorem expanded_name_checked (cx : Ctx) (kind : PKind) (sec : Section) (pre : Pre) (E E' : Exps) (num : Int) (p : PConfig)
-    (h : mkProc cx kind sec pre E num = .ok (p, E')) :
+theorem expanded_name_checked (cx : Ctx) (kind : PKind) (sec : Section) (pre : Pre) (s s' : XS) (num : Int) (p : PConfig)
+    (h : mkProc cx kind sec pre s num = .ok (p, s')) :
     ∀ c ∈ forbiddenNameChars, c ∉ p.name.toList := by
-  obtain ⟨_, _, nameX, _, _, _, _, _, _, _, hn, _⟩ := mkProc_expands cx kind sec pre E E' num p h
+  obtain ⟨_, _, nameX, _, _, _, _, _, _, _, _, _, _, _, _, _, _, _, hn, _⟩ := mkProc_expands cx kind sec pre s s' num p h
   obtain ⟨ho, hc⟩ := name_chars nameX p.name hn
   rw [ho]
   simpa using hc
@@ -653,13 +727,27 @@ theorem Forall2.exists_of_mem {α β : Type} {R : α → β → Prop} {as : List
 
 /-- **constraint: missing command.**  Without a `command` the loop body fails for every process number, so a
     section with numprocs ≥ 1 is rejected. -/
-theorem constraint_missing_command (cx : Ctx) (kind : PKind) (sec : Section) (pre : Pre) (E : Exps) (num : Int)
-    (hc : sec.opts.lookup "command" = none) : ∃ e, mkProc cx kind sec pre E num = .error e := by
+theorem constraint_missing_command (cx : Ctx) (kind : PKind) (sec : Section) (pre : Pre) (s : XS) (num : Int)
+    (hc : sec.opts.lookup "command" = none) : ∃ e, mkProc cx kind sec pre s num = .error e := by
   apply isError_of_not_ok
-  rintro ⟨p, E'⟩ hok
-  obtain ⟨_, _, _, _, _, _, _, _, _, _, _, hcmd, _⟩ := mkProc_expands cx kind sec pre E E' num p hok
+  rintro ⟨p, s'⟩ hok
+  obtain ⟨_, _, _, _, _, err, c, _, _, _, _, _, _, _, _, hcmd, hsome, _⟩ := mkProc_expands cx kind sec pre s s' num p hok
   have hrow : findRow "program" "command" = some ⟨"program", "command", "", Dflt.none, true⟩ := by decide
-  simp [getField, hrow, saneget, hc, rawDefault, convert, asOptStr, bind, Except.bind] at hcmd
+  have hget : pfsLoopGets.lookup "command" = some true := by decide
+  simp only [loopGet, hrow, hget, orError, bind_ok] at hcmd
+  obtain ⟨row, hrow', passes, hpass, r, hr, v, hv, hcmd⟩ := hcmd
+  injection hrow' with hrow'
+  subst hrow'
+  injection hpass with hpass
+  subst hpass
+  simp [saneget, hc, rawDefault] at hr
+  subst hr
+  simp [convert] at hv
+  subst hv
+  simp only [pure, Except.pure] at hcmd
+  injection hcmd with hcmd
+  subst hcmd
+  simp [asOptStr] at hsome
 
 theorem missing_command_rejects_section (cx : Ctx) (kind : PKind) (sec : Section) (suffix g : String)
     (hc : sec.opts.lookup "command" = none)
@@ -856,6 +944,29 @@ example : (processesFromSection exCx .process exSec "web" "web").map (fun ps => 
     = .ok [("web_05", "/bin/web --port=8005", [("PORT", "8005")]), ("web_06", "/bin/web --port=8006", [("PORT", "8006")]),
            ("web_07", "/bin/web --port=8007", [("PORT", "8007")])] := by decide +kernel
 
+-- process_independent: the usual "prepend to an inherited variable" idiom gives every process the same value, built
+-- from the inherited one (ENV_HOME = /root), and the program's own value reaches command and directory alike
+def exSecSelf : Section := ⟨"program:w", [("command", "/bin/w --home=%(ENV_HOME)s"), ("numprocs", "3"), ("numprocs_start", "4"),
+                                          ("process_name", "w%(process_num)d"), ("directory", "/srv%(ENV_HOME)s/%(process_num)d"),
+                                          ("environment", "HOME=\"/x:%(ENV_HOME)s\",SLOT=\"%(process_num)d\"")]⟩
+
+example : (match processesFromSection exCx .process exSecSelf "w" "w" with
+           | .ok ps => ps.map (fun p => (p.name, p.command, p.directory.getD "None", p.environment))
+           | .error _ => [])
+    = [("w4", "/bin/w --home=/x:/root", "/srv/x:/root/4", [("HOME", "/x:/root"), ("SLOT", "4")]),
+       ("w5", "/bin/w --home=/x:/root", "/srv/x:/root/5", [("HOME", "/x:/root"), ("SLOT", "5")]),
+       ("w6", "/bin/w --home=/x:/root", "/srv/x:/root/6", [("HOME", "/x:/root"), ("SLOT", "6")])] := by decide +kernel
+
+-- process_independent_of_earlier: the hypothesis is satisfiable (three rounds), dropping the first two leaves w6
+example : (procLoop exCx .process exSecSelf
+             { priority := 999, autostart := true, autorestart := .unexpected, startsecs := 1, startretries := 3, stopsignal := 15,
+               stopwaitsecs := 10, stopasgroup := false, killasgroup := false, exitcodes := [0], redirect_stderr := false,
+               numprocs := 3, numprocs_start := 4, environment_str := "HOME=\"/x:%(ENV_HOME)s\"", stdout_cmaxbytes := 0,
+               stdout_events := false, stderr_cmaxbytes := 0, stderr_events := false, serverurl := none, uid := none,
+               umask := none, process_name := "w%(process_num)d" }
+             (freshXS (commonExps exCx "w" "w")) [4, 5, 6]).map (fun ps => ps.map (fun p => (p.name, p.environment)))
+    = .ok [("w4", [("HOME", "/x:/root")]), ("w5", [("HOME", "/x:/root")]), ("w6", [("HOME", "/x:/root")])] := by decide +kernel
+
 /-- the answer is an error message -/
 def rejected {α : Type} (x : Except String α) : Bool := match x with | .error _ => true | .ok _ => false
 
@@ -865,6 +976,17 @@ example : rejected (processesFromSection exCx .process ⟨"program:a", [("comman
 example : rejected (processesFromSection exCx .process ⟨"program:a", [("numprocs", "1")]⟩ "a" "a") = true := by decide +kernel
 example : rejected (processesFromSection exCx .process ⟨"program:a", [("command", "x"), ("process_name", "%(ENV_HOME)s")]⟩ "a" "a") = true := by decide +kernel
 example : rejected (processesFromSection exCx .process ⟨"program:a", [("command", "x"), ("startsecs", "1.5")]⟩ "a" "a") = true := by decide +kernel
+-- regression (finding F43, fixed): an ENV_ key taken from the environment of process 0 (A0) is not visible to process 1,
+-- whose own environment defines A1 only; the same section with one process is accepted
+example : rejected (processesFromSection exCx .process ⟨"program:a", [("command", "x %(ENV_A0)s"), ("numprocs", "2"),
+    ("process_name", "a%(process_num)d"), ("environment", "A%(process_num)d=\"v\"")]⟩ "a" "a") = true := by decide +kernel
+example : (processesFromSection exCx .process ⟨"program:a", [("command", "x %(ENV_A0)s"), ("numprocs", "1"),
+    ("process_name", "a%(process_num)d"), ("environment", "A%(process_num)d=\"v\"")]⟩ "a" "a").map (fun ps => ps.map (fun p => p.command))
+    = .ok ["x v"] := by decide +kernel
+-- regression (finding F40, fixed): an escaped percent sign in a log file name is one literal percent sign
+example : (processesFromSection exCx .process ⟨"program:a", [("command", "x"), ("stdout_logfile", "/tmp/a%%20b.log"),
+    ("stderr_logfile", "/tmp/%%(program_name)s.err")]⟩ "a" "a").map (fun ps => ps.map (fun p => (p.stdout_logfile, p.stderr_logfile)))
+    = .ok [(.path "/tmp/a%20b.log", .path "/tmp/%(program_name)s.err")] := by decide +kernel
 example : rejected (poolEvents ["tick_5", "NOPE"]) = true := by decide +kernel
 example : poolEvents ["tick_5", "PROCESS_STATE", "TICK_5"] = .ok ["Tick5Event", "ProcessStateEvent", "Tick5Event"] := by decide +kernel
 
